@@ -433,6 +433,9 @@ def run(ctx):
         if ctx.n_new() == 0:
             run_demo(ctx, 'demo_tr4.py', [1 + ctx.seed], 'c06-code-vs-generated-vs-model-4',
                      'BinaryCLT log_likelihood / mpe / message_passing / bfs order vs generated definitions vs model', env_extra=dict(DEMO_SECTIONS='b'))
+        if ctx.n_new() == 0:
+            run_demo(ctx, 'demo_leaves.py', [20260929 + ctx.seed], 'c06-leaf-families-vs-model',
+                     'leaf modes (Bernoulli / Categorical / Uniform / Isotonic / Gaussian: the filled value maximises the density) against the exact leaf theory')
 
 
 def replay(rep):
